@@ -8,6 +8,9 @@ import GV.Model.Offsets
 namespace GV.Model.OffsetsTruth
 open GV.Cbor GV.Model.Offsets
 
+/- `isArrayAt` / `isMapAt` / `uintAt` read the head of the item that STARTS at the span (a head
+   is at most 9 bytes, and `readHead` never looks further), so no copy of the span is made. -/
+
 /-- absolute spans of the direct children of the array/map occupying `sp` in `b` -/
 def kidsAt (b : Bytes) (sp : Nat × Nat) : Option (List (Nat × Nat)) :=
   match childSpans (slice b sp.1 sp.2) with
@@ -15,17 +18,17 @@ def kidsAt (b : Bytes) (sp : Nat × Nat) : Option (List (Nat × Nat)) :=
   | none => none
 
 def isArrayAt (b : Bytes) (sp : Nat × Nat) : Bool :=
-  match readHead (slice b sp.1 sp.2) with
+  match readHead (b.drop sp.1) with
   | .mk 4 _ _ _ => true
   | _ => false
 
 def isMapAt (b : Bytes) (sp : Nat × Nat) : Bool :=
-  match readHead (slice b sp.1 sp.2) with
+  match readHead (b.drop sp.1) with
   | .mk 5 _ _ _ => true
   | _ => false
 
 def uintAt (b : Bytes) (sp : Nat × Nat) : Option Nat :=
-  match readHead (slice b sp.1 sp.2) with
+  match readHead (b.drop sp.1) with
   | .mk 0 _ arg _ => some arg
   | _ => none
 
